@@ -1,12 +1,20 @@
 #!/bin/bash
-# usage: seedrun.sh <patch.diff> <ID> [more IDs]  -- apply a seeded change to /repo, run the quick checks, undo it.
-PATCH="$1"; shift
-cd /repo || exit 2
-if ! git diff --quiet; then echo "/repo has uncommitted changes"; exit 2; fi
-git apply "$PATCH" || { echo "patch does not apply"; exit 2; }
-trap 'git -C /repo checkout -- . ' EXIT
+# usage: seedrun.sh <patch.diff> <ID> [more IDs]
+# Apply a seeded change to a scratch worktree of /repo's HEAD and run the checks against that worktree
+# (VERIF_REPO) with a scratch evidence directory: neither /repo nor /verif/evidence is touched, so this
+# can run while registered checks are running.  The worktree is removed on exit.
+PATCH="$(readlink -f "$1")"; shift
+TAG="$(basename "$(dirname "$PATCH")")_$$"
+WT=/tmp/seedrun_$TAG
+EV=/tmp/seedrun_ev_$TAG
+git -C /repo worktree add --detach "$WT" HEAD >/dev/null 2>&1 || { echo "worktree failed"; exit 2; }
+trap 'cd /; git -C /repo worktree remove --force "$WT" >/dev/null 2>&1; rm -rf "$EV"' EXIT
+# the worktree starts from the committed HEAD: carry over uncommitted changes of /repo's working tree, if any
+if ! git -C /repo diff --quiet; then git -C /repo diff | git -C "$WT" apply || { echo "cannot carry working-tree changes"; exit 2; }; fi
+git -C "$WT" apply "$PATCH" || { echo "patch does not apply"; exit 2; }
+mkdir -p "$EV"
 for id in "$@"; do
-  echo "--- $id with $(basename $(dirname $PATCH)) applied"
-  /verif/bin/check $id --tier ${TIER:-quick} 2>&1 | grep -v "^WARNING" | cut -c1-260 | head -${LINES_MAX:-12}
+  echo "--- $id with $(basename "$(dirname "$PATCH")")/$(basename "$PATCH") applied"
+  VERIF_REPO="$WT" VERIF_EVIDENCE_DIR="$EV" /verif/bin/check $id --tier ${TIER:-quick} ${ONLY:+--only "$ONLY"} 2>&1 | grep -v "^WARNING" | cut -c1-260 | head -${LINES_MAX:-12}
   echo "rc=${PIPESTATUS[0]}"
 done
